@@ -159,7 +159,12 @@ func (goh *GoatOverHttp) ServeHTTP(w http.ResponseWriter, r *http.Request) {
 		go goh.onConnect(source, conn)
 	}
 
-	conn.readCh <- &rpc
+	select {
+	case conn.readCh <- &rpc:
+	case <-conn.done:
+		log.Error().Msgf("GoatOverHttp: connection to %s closed during delivery", source)
+		http.Error(w, "connection closed", http.StatusServiceUnavailable)
+	}
 }
 
 // connectionCleaner ticks every |connectionCleanupInterval|, closing any
@@ -197,6 +202,7 @@ func (goh *GoatOverHttp) retrieve(id string) (*httpReadWriter, bool) {
 		conn = &httpReadWriter{
 			writeAddr: id,
 			readCh:    make(chan *Rpc),
+			done:      make(chan struct{}),
 			cancel:    func() { goh.unregister(id) },
 			clock:     goh.clock,
 		}
@@ -216,7 +222,7 @@ func (goh *GoatOverHttp) unregister(id string) {
 
 func (goh *GoatOverHttp) unregisterLocked(id string) {
 	if conn, ok := goh.conns.value[id]; ok {
-		close(conn.readCh)
+		close(conn.done)
 	}
 
 	delete(goh.conns.value, id)
@@ -227,19 +233,22 @@ type httpReadWriter struct {
 	readCh    chan *Rpc
 	cancel    func()
 
+	// closed when the connection is unregistered. readCh is never closed:
+	// ServeHTTP may be sending on it.
+	done chan struct{}
+
 	clock        clockwork.Clock
 	lastActivity atomic.Int64
 }
 
 func (hrw *httpReadWriter) Read(ctx context.Context) (*Rpc, error) {
 	select {
-	case rpc, ok := <-hrw.readCh:
-		if !ok {
-			log.Error().Msgf("HttpRpcReadWriter: read err: closed")
-			return nil, errors.New("readCh closed")
-		}
+	case rpc := <-hrw.readCh:
 		hrw.bumpActivity()
 		return rpc, nil
+	case <-hrw.done:
+		log.Error().Msgf("HttpRpcReadWriter: read err: closed")
+		return nil, errors.New("readCh closed")
 	case <-ctx.Done():
 		return nil, ctx.Err()
 	}
